@@ -239,6 +239,9 @@ impl Ics {
                 c.fund(u, 1u128 << 80, d);
             }
             c.fund(u, 1u128 << 80, &odd_denom);
+            for t in &cw20s {
+                c.fund(u, 1u128 << 40, &format!("cw20:{t}"));
+            }
         }
         let gov = mk_addr("gov");
         let default_gas = match h.rng.below(3) {
@@ -356,7 +359,12 @@ impl Ics {
         }
         match k {
             0 => {
-                let denom = if rng.chance(1, 5) { w.odd_denom.clone() } else { rng.pick(&NATIVE).to_string() };
+                let denom = match rng.below(20) {
+                    0..=3 => w.odd_denom.clone(),
+                    // a native coin whose denom is the internal encoding of a cw20 token
+                    4 => format!("cw20:{}", w.cw20s[rng.below_usize(3)]),
+                    _ => rng.pick(&NATIVE).to_string(),
+                };
                 (user, Op::TransferNative { channel: chan(rng), denom, amount: amt(rng), extra_coin: rng.chance(1, 15), timeout: tmo(rng), memo: memo(rng) })
             }
             1 => (user, Op::TransferCw20 { token: rng.below_usize(3), channel: chan(rng), amount: amt(rng), timeout: tmo(rng), memo: memo(rng) }),
@@ -419,11 +427,13 @@ impl Ics {
                 };
                 let contract = if rng.chance(1, 20) { "bad-address".to_string() } else { w.cw20s[rng.below_usize(3)].to_string() };
                 let cur = pre.allow.get(&contract).cloned();
-                let gas = match (cur, rng.below(6)) {
+                let gas = match (cur, rng.below(8)) {
                     (_, 0) => None,
+                    (_, 6) => Some(u64::MAX),
+                    (_, 7) => Some(if rng.chance(1, 2) { 0 } else { u64::MAX - 1 }),
                     (Some(Some(g)), 1) => Some(g.saturating_sub(1)), // try to lower
                     (Some(Some(g)), 2) => Some(g),
-                    (Some(Some(g)), 3) => Some(g + rng.range(1, 1000)),
+                    (Some(Some(g)), 3) => Some(g.saturating_add(rng.range(1, 1000))),
                     _ => Some(rng.range(10_000, 400_000)),
                 };
                 (sender, Op::Allow { contract, gas })
@@ -605,6 +615,9 @@ impl Ics {
                     h.out.count("cw20_transfers_accepted");
                 }
             } else {
+                if matches!(op, Op::TransferNative { .. }) && denom.starts_with("cw20:") {
+                    h.out.count("native_transfers_with_cw20_prefixed_denom_rejected");
+                }
                 if !h.check(new_packets.is_empty(), &format!("{prop}/send/{kind}/rejected-transfer-emitted-packet"), || format!("{new_packets:?}")) {
                     return false;
                 }
@@ -926,6 +939,14 @@ impl Ics {
                         CosmosMsg::Bank(BankMsg::Send { .. }) => (false, String::new()),
                         _ => continue,
                     };
+                    if is_cw20 && !pre.allow.contains_key(&target) && pre.default_gas.is_none() {
+                        h.out.oracle_checks += 1;
+                        h.violate(
+                            &format!("C18/payout/{kind}/issued-for-token-neither-allowed-nor-covered-by-default"),
+                            format!("payout sub-call into {target}, which is not on the allow list, and no default gas limit is configured"),
+                        );
+                        return false;
+                    }
                     let want = if is_cw20 {
                         match pre.allow.get(&target) {
                             Some(g) => *g,
@@ -1249,6 +1270,7 @@ impl Monitor for Ics {
     fn mandatory(&self) -> Vec<&'static str> {
         match self.prop {
             "C11" => vec![
+                "native_transfers_with_cw20_prefixed_denom_rejected",
                 "directed_scenarios_completed",
                 "transfers_accepted",
                 "receives_acked_success",
